@@ -5,6 +5,7 @@ package checks
 import (
 	"bytes"
 	"fmt"
+	"io"
 	"time"
 
 	"github.com/gorilla/websocket"
@@ -41,7 +42,53 @@ func c02Scenarios(tier string) []*explore.Scenario {
 		server := server
 		scs = append(scs, &explore.Scenario{Name: fmt.Sprintf("c02/length-forms/writer=%s", roleName(server)), Bound: 0, Body: func(x *explore.Ctx) { c02LengthForms(x, server) }})
 	}
+	// control payloads above 125 bytes through the message APIs (WriteControl refuses them by itself): whatever the
+	// call returns, no frame on the wire may be a control frame with more than 125 payload bytes
+	for _, server := range []bool{true, false} {
+		server := server
+		scs = append(scs, &explore.Scenario{Name: fmt.Sprintf("c02/oversized-control-through-message-apis/writer=%s", roleName(server)), Bound: 0, Body: func(x *explore.Ctx) { c02OversizedControl(x, server) }})
+	}
 	return scs
+}
+
+func c02OversizedControl(x *explore.Ctx, server bool) {
+	mask := &MaskRec{}
+	restore := websocket.VerifSetMaskRand(mask)
+	defer restore()
+	b := []int{1, 16, 100, 125, 126, 300, 0}[x.Pick(7, "WriteBufferSize")]
+	comp := x.Pick(2, "deflate") == 1
+	e := NewWEnv(x, WConfig{Server: server, B: b, Compress: comp}, false)
+	n := []int{126, 127, 130, 200, 1000, 5000}[x.Pick(6, "len")]
+	mt := []int{websocket.PingMessage, websocket.PongMessage, websocket.CloseMessage}[x.Pick(3, "type")]
+	p := Pattern(4, n)
+	if mt == websocket.CloseMessage {
+		p = append(wsref.CloseBody(1000, ""), p[2:]...)
+	}
+	var err error
+	api := x.Pick(3, "api(WriteMessage|NextWriter+Write+Close|NextWriter+two Writes+Close)")
+	switch api {
+	case 0:
+		err = e.C.WriteMessage(mt, p)
+	default:
+		var w io.WriteCloser
+		if w, err = e.C.NextWriter(mt); err == nil {
+			if api == 1 {
+				_, err = w.Write(p)
+			} else {
+				if _, err = w.Write(p[:n/2]); err == nil {
+					_, err = w.Write(p[n/2:])
+				}
+			}
+			if cerr := w.Close(); err == nil {
+				err = cerr
+			}
+		}
+	}
+	x.NonTrivial()
+	d, derr := wsref.DecodeStrict(e.NC.Out, wsref.StrictOpts{Sender: RoleOf(server), Deflate: comp})
+	x.Obs("B=%d n=%d type=%d api=%d -> err=%v wire=%d bytes %d frames decode=%v", b, n, mt, api, err != nil, len(e.NC.Out), len(d.Frames), derr)
+	x.Check(derr == nil, fmt.Sprintf("C02:malformed:oversized-control:writer=%s:deflate=%v", roleName(server), comp),
+		"a %d-byte control message (type %d) through api %d with WriteBufferSize %d returned %v and left bytes on the wire that are not well-formed: %v", n, mt, api, b, err, derr)
 }
 
 func c02LengthForms(x *explore.Ctx, server bool) {
